@@ -279,7 +279,7 @@ func init() {
 				return true
 			})
 			c.Fact("sessions.stateless_header_reads", map[string]int{"total": reads, "under_legacy_flag": guarded})
-			c.Fact("sessions.stateless_calls", callSeq(c, fd.Body, []string{"lookupSession", "GetSessionID", "connectStreamable", "Close", "ServeHTTP", "serveStatelessLegacyDELETE"}))
+			c.Fact("sessions.stateless_calls", callSeq(c, fd.Body, []string{"lookupSession", "GetSessionID", "connectStreamable", "Close", "ServeHTTP", "serveStatelessLegacyDELETE", "serveEphemeral"}))
 		}
 		if fd := c.Func(dir, "StreamableHTTPHandler", "serveStateful"); fd != nil {
 			var def *ast.CaseClause
@@ -298,7 +298,13 @@ func init() {
 		}
 
 		// --- structural fact: the transport/session is reached only through lookupSession's result
-		interesting := []string{"lookupSession", "startPOST", "endPOST", "ServeHTTP", "Close", "GetSessionID", "connectStreamable", "AfterFunc", "stopTimer"}
+		// a temporary session (stateless endpoint, or GetSessionID returned ""): served once, then closed
+		if fd := c.Func(dir, "", "serveEphemeral"); fd != nil {
+			c.Fact("sessions.ephemeral_calls", callSeq(c, fd.Body, []string{"Close", "ServeHTTP", "close", "Wait", "lookupSession"}))
+		} else {
+			c.Fact("sessions.ephemeral_calls", []string{"<serveEphemeral not found>"})
+		}
+		interesting := []string{"lookupSession", "startPOST", "endPOST", "ServeHTTP", "Close", "GetSessionID", "connectStreamable", "AfterFunc", "stopTimer", "serveEphemeral"}
 		shape := map[string]any{}
 		for _, fn := range []string{"serveStatefulGET", "serveStatefulPOST", "serveStatefulDELETE"} {
 			fd := c.Func(dir, "StreamableHTTPHandler", fn)
